@@ -181,6 +181,41 @@ pub fn build_cases(tier: &str, seed: u64, pools: &Pools) -> Vec<Case> {
                 }
             }
         }
+        // (3b) multi-byte characters substituted / inserted at every position of the first 14 characters (byte offsets that
+        //      are not character boundaries), on tokens that keep 3 or 4 segments
+        for (f, fsup) in [(None, None), (Some("ftr"), Some("ftr"))] {
+            if let Some(t) = authentic(p, &key, &mut rng, "{\"a\":1}", f, None) {
+                let chars: Vec<char> = t.chars().collect();
+                for pos in 0..14.min(chars.len()) {
+                    for ins in ['\u{e9}', '\u{20ac}', '\u{1F980}', '\u{0}', '\u{7f}'] {
+                        let mut c2 = chars.clone();
+                        c2[pos] = ins;
+                        push_all_layers(&mut cases, p, &key, c2.iter().collect(), fsup.map(|s: &str| s.to_string()), None, "multibyte-substituted-near-header");
+                        let mut c3 = chars.clone();
+                        c3.insert(pos, ins);
+                        push_all_layers(&mut cases, p, &key, c3.iter().collect(), fsup.map(|s: &str| s.to_string()), None, "multibyte-inserted-near-header");
+                        // the separator before the payload replaced: payload glued to the purpose, footer keeps the count at 3
+                        if chars[pos] == '.' {
+                            let glued: String = chars[..pos].iter().chain([ins].iter()).chain(chars[pos + 1..].iter()).collect();
+                            push_all_layers(&mut cases, p, &key, format!("{}.AAAA", glued), None, None, "multibyte-replaces-separator+extra-segment");
+                        }
+                    }
+                }
+            }
+        }
+        for h in ["v4.local\u{e9}.AAAA", "v4.publi\u{20ac}.AAAA", "\u{65e5}\u{672c}.\u{8a9e}\u{65e5}\u{672c}\u{8a9e}.\u{65e5}\u{672c}\u{8a9e}", "v4.loca\u{1F980}.AAAA", "\u{e9}\u{e9}.\u{e9}\u{e9}\u{e9}\u{e9}.AAAA", "v1.publi\u{e9}.AAAA.AAAA"] {
+            push_all_layers(&mut cases, p, &key, h.to_string(), None, None, "multibyte-straddles-header-length");
+        }
+        // every split of a 3-segment string of multi-byte characters around the protocol's header length
+        for total in 6..16usize {
+            for first in 1..4usize {
+                for second in 1..(total - first) {
+                    let s: String = format!("{}.{}.{}", "\u{e9}".repeat(first), "\u{20ac}".repeat(second), "A".repeat(4));
+                    push_all_layers(&mut cases, p, &key, s, None, None, "multibyte-segments");
+                    let _ = total;
+                }
+            }
+        }
         // (4) invalid base64 / padding / odd structure after a correct header
         let hdr = p.header();
         let bodies: Vec<String> = vec![
@@ -318,4 +353,4 @@ pub fn replay(case: &Value) -> Report {
     r
 }
 
-pub const RULE: &str = "cases = for each of the 8 protocols x 4 entry points (core, generic, batteries new(), batteries default()): the correct header followed by base64url of EVERY decoded length 0..=400 (thorough 0..=1200) with zero/random/authentic-prefix fill, with and without a matching footer segment; random larger payloads; every character prefix and several extensions of authentic tokens; invalid/padded/non-alphabet base64; 0-6 segment strings of arbitrary Unicode; foreign and relabelled tokens; large inputs; garbage public keys; and Key::<N>::try_from(&str) for N in {1,2,24,32,48,49,56,64} on hex strings of every length 0..=200 plus non-hex text. All with VALID key material so that parsing proceeds past key handling. Oracle: any Ok/Err is fine, a panic or process death is the violation. distinct_nontrivial = distinct (entry point, case class, outcome variant) tuples whose input got past the segment-count and header checks";
+pub const RULE: &str = "cases = for each of the 8 protocols x 4 entry points (core, generic, batteries new(), batteries default()): the correct header followed by base64url of EVERY decoded length 0..=400 (thorough 0..=1200) with zero/random/authentic-prefix fill, with and without a matching footer segment; random larger payloads; every character prefix and several extensions of authentic tokens; multi-byte characters substituted and inserted at each of the first 14 positions (so that byte offsets near the header length are not character boundaries); invalid/padded/non-alphabet base64; 0-6 segment strings of arbitrary Unicode; foreign and relabelled tokens; large inputs; garbage public keys; and Key::<N>::try_from(&str) for N in {1,2,24,32,48,49,56,64} on hex strings of every length 0..=200 plus non-hex text. All with VALID key material so that parsing proceeds past key handling. Oracle: any Ok/Err is fine, a panic or process death is the violation. distinct_nontrivial = distinct (entry point, case class, outcome variant) tuples whose input got past the segment-count and header checks";
